@@ -919,6 +919,13 @@ class Actor(object):
         size of their factory (gc has just run)."""
         sim = self.sim
         ctx = sim.ctx
+        if sim.inflight:
+            # a request that is being executed by a parked thread keeps the
+            # zone it is about to return alive from its own frame: such an
+            # object is neither cached nor leaked, so the bound is only
+            # meaningful when no request is in flight
+            ctx.probe("retention_check_skipped_request_in_flight")
+            return
         heldobjs = set(id(r["obj"]) for r in sim.held.values()
                        if r["obj"] is not None)
 
